@@ -35,6 +35,9 @@ LEVEL = "exploration"
 SIG_NOGRID = "discharge/default-sfp-has-no-grid"
 SIG_FRESH = "dischargeSwap/fresh-incoming-stationary-block-names"
 SIG_POOLNAMES = "lookup-by-name/pool-assembly-not-placed-by-core-never-registered"
+# fixed in /repo (ffd334b): with trackAssems on and NO spent fuel pool in the reactor, removeAssembly(discharge=True) left
+# the assembly - which is in no container - in assembliesByName / blocksByName.  Searched by the main part (no exclusion).
+SIG_NOSFP = "discharge/no-sfp-assembly-stays-in-name-tables"
 EXCLUDE_KNOWN = {SIG_NOGRID: True, SIG_FRESH: True, SIG_POOLNAMES: True}
 
 ASSUMPTIONS = [
@@ -110,6 +113,9 @@ def strategy(tier):
             # assemblies (design indices) listed in the sfp grid contents of the blueprint: a pool that has content
             # from the start, whether or not trackAssems is on
             "prepool": st.one_of(st.just([]), st.just([]), st.lists(st.integers(0, 2), min_size=1, max_size=3)),
+            # the reactor has no spent fuel pool at all (del r.excore["sfp"], as armi's test_removeAssemblyNoSfp does):
+            # every discharge then takes the assembly out of the model, tracked or not
+            "sfpDeleted": st.sampled_from([False, True, False, False, False]),
         }
     )
 
@@ -464,7 +470,7 @@ def _check(out, M, r, where, deep, ctx=None):
         except KeyError:
             got = None
         if got is a:
-            bad("lookup-by-name/purged-assembly-returned", lambda: "getAssemblyByName(%r) returns the purged %s" % (a.getName(), M.name(aid)))
+            bad(ctx.get("lookup-by-name/purged-assembly-returned", "lookup-by-name/purged-assembly-returned"), lambda: "getAssemblyByName(%r) returns the purged %s" % (a.getName(), M.name(aid)))
         for bid in M.stack[aid]:
             b = M.B[bid]
             try:
@@ -472,7 +478,7 @@ def _check(out, M, r, where, deep, ctx=None):
             except KeyError:
                 got = None
             if got is b:
-                bad("lookup-by-name/purged-block-returned", lambda: "getBlockByName(%r) returns a block of the purged %s" % (b.getName(), M.name(aid)))
+                bad(ctx.get("lookup-by-name/purged-block-returned", "lookup-by-name/purged-block-returned"), lambda: "getBlockByName(%r) returns a block of the purged %s" % (b.getName(), M.name(aid)))
     # regenAssemblyLists() also enters the blueprints' template assemblies (getAssemblies(includeBolAssems=True)): they
     # were never part of the inventory, so they are neither "found" nor "purged"
     templates = M.templates
@@ -481,7 +487,7 @@ def _check(out, M, r, where, deep, ctx=None):
         if id(a) in templates:
             continue
         if id(a) not in live_a:
-            bad("lookup-by-name/purged-assembly-returned", lambda: "getAssemblyByName(%r) returns %s which is neither in the core nor in the pool" % (nm, A(a)))
+            bad(ctx.get("lookup-by-name/purged-assembly-returned", "lookup-by-name/purged-assembly-returned"), lambda: "getAssemblyByName(%r) returns %s which is neither in the core nor in the pool" % (nm, A(a)))
         elif a.getName() != nm:
             bad("lookup-by-name/assembly-under-stale-name", lambda: "getAssemblyByName(%r) returns %s" % (nm, A(a)))
     for nm in sorted(core.blocksByName):
@@ -489,7 +495,7 @@ def _check(out, M, r, where, deep, ctx=None):
         if id(b) in templates:
             continue
         if id(b) not in live_b:
-            bad("lookup-by-name/purged-block-returned", lambda: "getBlockByName(%r) returns %r which is in no assembly of the core or the pool" % (nm, b))
+            bad(ctx.get("lookup-by-name/purged-block-returned", "lookup-by-name/purged-block-returned"), lambda: "getBlockByName(%r) returns %r which is in no assembly of the core or the pool" % (nm, b))
         elif b.getName() != nm:
             bad(ctx.get("lookup-by-name/block-under-stale-name", "lookup-by-name/block-under-stale-name"), lambda: "getBlockByName(%r) returns the block now named %r" % (nm, b.getName()))
 
@@ -591,10 +597,11 @@ def _execute(case, exclude):
     spec = _apply_plates(case["spec"], case["plates"])
     track = bool(case["track"])
     flags, stat_kinds = STATIONARY[case["stationary"]]
-    if track and not spec.get("sfp") and exclude.get(SIG_NOGRID):
+    no_pool = bool(case.get("sfpDeleted", False))
+    if track and not spec.get("sfp") and not no_pool and exclude.get(SIG_NOGRID):
         spec["sfp"] = True
         out.label("excluded:" + SIG_NOGRID)
-    prepool = [d % len(spec["designs"]) for d in case.get("prepool", [])]
+    prepool = [] if no_pool else [d % len(spec["designs"]) for d in case.get("prepool", [])]
     text = None
     if prepool:
         spec["sfp"] = True  # contents need the explicit pool grid
@@ -604,6 +611,9 @@ def _execute(case, exclude):
     if start == "db-loaded":
         r = _through_database(cs, bp, r)
     out.label("start:" + start)
+    if no_pool:
+        r.excore["sfp"] = None
+        del r.excore["sfp"]
     core = r.core
     sfp = r.excore.get("sfp")
     fh = fuelHandlers.FuelHandler(_Operator(r, cs))
@@ -649,7 +659,7 @@ def _execute(case, exclude):
               lambda: "stationaryBlockFlags %r in the settings, the core designates %r" % (list(flags), designated))
 
     out.label("geom:" + spec["geom"], "sym:" + spec["symmetry"].split()[0], "track:" + ("on" if track else "off"),
-              "stationary:" + case["stationary"], "sfp:" + ("explicit" if spec.get("sfp") else "default"),
+              "stationary:" + case["stationary"], "sfp:" + ("deleted-track-" + ("on" if track else "off") if no_pool else ("explicit" if spec.get("sfp") else "default")),
               "rings:%d" % spec["rings"], "assemblies:%s" % ("<=6" if len(M.where) <= 6 else ("7-19" if len(M.where) <= 19 else "20+")),
               "plates:" + case["plates"])
     if not _check(out, M, r, "initial state", set(M.live()), init_ctx):
@@ -663,6 +673,8 @@ def _execute(case, exclude):
     nsteps = len(case["program"])
 
     other_grid = [None]
+    # the shape of the fixed finding: a tracked discharge without a pool (attribution of the purged-lookup clauses)
+    nosfp_ctx = {"lookup-by-name/purged-assembly-returned": SIG_NOSFP, "lookup-by-name/purged-block-returned": SIG_NOSFP}
 
     def fresh(design):
         a = core.createAssemblyOfType(assemType=design["name"], cs=cs)
@@ -810,7 +822,9 @@ def _execute(case, exclude):
                 return out
             if not refuse:
                 M.exchange(incoming, x)
-                ij = M.take_out(x, to_pool=track)
+                ij = M.take_out(x, to_pool=track and not no_pool)
+                if track and no_pool:
+                    ctx = dict(ctx or {}, **nosfp_ctx)
                 M.put_in(incoming, ij)
                 M.charged_by_dswap.add(incoming)
                 dswap_done = True
@@ -874,8 +888,10 @@ def _execute(case, exclude):
                          "and cannot receive the discharged assembly; it has left the core and is in no container" % (step, desc))
                 out.nontrivial = True
                 return out
-            M.take_out(x, to_pool=discharge and track)
-            out.label("op:remove", "remove:" + ("to-pool" if discharge and track else ("purge" if not discharge else "discharge-untracked")))
+            M.take_out(x, to_pool=discharge and track and not no_pool)
+            if discharge and track and no_pool:
+                ctx = dict(nosfp_ctx)
+            out.label("op:remove", "remove:" + ("no-pool-tracked" if discharge and track and no_pool else ("to-pool" if discharge and track else ("purge" if not discharge else "discharge-untracked"))))
 
         executed += 1
         last = step == nsteps - 1
@@ -907,10 +923,10 @@ def known_execute(case):
 
 
 PARTS = [
-    Part("programs", execute, strategy=strategy, budget={"quick": 480, "thorough": 12000}, procs={"quick": 6, "thorough": 16},
+    Part("programs", execute, strategy=strategy, budget={"quick": 360, "thorough": 12000}, procs={"quick": 6, "thorough": 16},
          rule="Hypothesis: blueprint-built core (hex third/full flats/corners up, Cartesian full/quarter, 2-4 rings, holes, 1-3 designs of "
               "1-3 blocks, grid plates/reflectors at any axial position or forced to the bottom / bottom+top, SFP explicit or default) x "
-              "start state {as built, 1 in 4: written to a Database and loaded back} x "
+              "start state {as built, 1 in 4: written to a Database and loaded back} x {pool present, 1 in 5: deleted from the reactor} x "
               "trackAssems on/off x stationaryBlockFlags {none, grid plate, grid plate+reflector} x program of <= 14 operations drawn "
               "from a random subset of {swapAssemblies, swapCascade(2-5 members), dischargeSwap(fresh|pool), Core.add(fresh|pool|purged "
               "put back; locator of the core grid / of an equal grid / detached / none) at a "
@@ -919,7 +935,7 @@ PARTS = [
               "location/pool/purged/block-stack model compared after every step (children, locators, childrenByLocator, string "
               "location lookup, name lookups incl. purged, inventory, contents), refusals must raise and leave the model state; "
               "non-trivial = >= 3 executed operations incl. a discharge swap and a later swap/cascade moving the charged assembly"),
-    Part("known_shapes", known_execute, strategy=known_strategy, budget={"quick": 120, "thorough": 600}, procs={"quick": 2, "thorough": 4},
+    Part("known_shapes", known_execute, strategy=known_strategy, budget={"quick": 80, "thorough": 600}, procs={"quick": 2, "thorough": 4},
          rule="the three shapes the main search excludes by construction, generated with the exclusion off: (a) trackAssems on with the "
               "default grid-less SFP and a discharge; (b) dischargeSwap of a fresh blueprint assembly with a non-empty stationary "
               "exchange (tracking on and off); (c) a pool pre-populated by the blueprints (or restored by Database.load) without "
